@@ -83,6 +83,8 @@ def isinstance_(ex, v, t, node):
         return isinstance(v, list)
     if name in ("bytes",):
         return False
+    if name in ("numpy.integer", "numpy.floating", "numpy.number", "numpy.bool_") and isinstance(v, (int, float, bool, str, tuple, list, type(None))):
+        return False                  # a Python literal is not a numpy scalar
     if name in ("numpoly.ndpoly", "numpy.ndarray", "numpy.generic"):
         return False
     raise U(f"isinstance(_, {name}) on {type(v).__name__}", node)
